@@ -1,6 +1,8 @@
 package main
 
 import (
+	"crypto/sha256"
+	"encoding/hex"
 	"encoding/json"
 	"fmt"
 	"go/ast"
@@ -13,8 +15,6 @@ import (
 	"strings"
 	"sync"
 	"time"
-	"crypto/sha256"
-	"encoding/hex"
 )
 
 // insertFences adds yield points to the scratch copy (DESIGN.md 3.4).  Sites
@@ -99,6 +99,10 @@ func insertFences(repo string) error {
 	// hand-over fences: around the hand-over of a connection to the HTTP/1.1 server
 	if err := insertHandoverFences(filepath.Join(repo, "pkg/proxyserver/proxyserver.go")); err != nil {
 		missing = append(missing, "hand-over: "+err.Error())
+	}
+	// event hooks around the certwatcher's event handling (C14 barrier)
+	if err := insertCertwatcherHooks(filepath.Join(repo, "pkg/certwatcher")); err != nil {
+		missing = append(missing, "certwatcher: "+err.Error())
 	}
 	if len(missing) > 0 {
 		return fmt.Errorf("fence sites not found: %v", missing)
@@ -543,6 +547,7 @@ func insertHandoverFences(path string) error {
 //   - inside synctest bubbles takes select tie-breaks (selectgo) and runtime.rand (map seeds,
 //     map iteration offsets, math/rand's auto-seeded generators) from one splitmix64 stream
 //     whose state the harness sets from VERIF_SEED's run seed at every controller step.
+//
 // Outside bubbles (GC, scheduler, the test framework) nothing changes.
 func makeOverlay(goroot string) string {
 	read := func(rel string) string {
@@ -619,4 +624,77 @@ func verifSelectRandn(n uint32) uint32 {
 	path := filepath.Join(dir, "overlay.json")
 	os.WriteFile(path, []byte(ov), 0o644)
 	return path
+}
+
+// insertCertwatcherHooks puts verifEventStart(ev) / verifEventDone(ev) around the statement
+// that handles an event in (*CertWatcher).Watch (the receive from <x>.Events), and records
+// that it did: the C14 barrier then does not depend on log lines of the code under test.
+func insertCertwatcherHooks(dir string) error {
+	path := filepath.Join(dir, "certwatcher.go")
+	fset := token.NewFileSet()
+	f, err := parser.ParseFile(fset, path, nil, parser.ParseComments)
+	if err != nil {
+		return err
+	}
+	found := false
+	for _, d := range f.Decls {
+		fd, ok := d.(*ast.FuncDecl)
+		if !ok || fd.Name.Name != "Watch" || fd.Body == nil {
+			continue
+		}
+		ast.Inspect(fd.Body, func(nd ast.Node) bool {
+			cc, ok := nd.(*ast.CommClause)
+			if !ok || cc.Comm == nil {
+				return true
+			}
+			as, ok := cc.Comm.(*ast.AssignStmt)
+			if !ok || len(as.Lhs) == 0 || len(as.Rhs) != 1 {
+				return true
+			}
+			ue, ok := as.Rhs[0].(*ast.UnaryExpr)
+			if !ok || ue.Op != token.ARROW {
+				return true
+			}
+			sel, ok := ue.X.(*ast.SelectorExpr)
+			if !ok || sel.Sel.Name != "Events" {
+				return true
+			}
+			evName, ok := as.Lhs[0].(*ast.Ident)
+			if !ok || evName.Name == "_" {
+				return true
+			}
+			mk := func(fn string) ast.Stmt {
+				return &ast.ExprStmt{X: &ast.CallExpr{Fun: ast.NewIdent(fn), Args: []ast.Expr{ast.NewIdent(evName.Name)}}}
+			}
+			// after the leading "channel closed" check(s): the first statement that is not an if
+			i := 0
+			for i < len(cc.Body) {
+				if _, isIf := cc.Body[i].(*ast.IfStmt); !isIf {
+					break
+				}
+				i++
+			}
+			if i >= len(cc.Body) {
+				return true
+			}
+			body := append([]ast.Stmt{}, cc.Body[:i]...)
+			body = append(body, mk("verifEventStart"))
+			body = append(body, cc.Body[i:]...)
+			body = append(body, mk("verifEventDone"))
+			cc.Body = body
+			found = true
+			return false
+		})
+	}
+	if !found {
+		return fmt.Errorf("event loop of Watch not found")
+	}
+	var sb strings.Builder
+	if err := format.Node(&sb, fset, f); err != nil {
+		return err
+	}
+	if err := os.WriteFile(path, []byte(sb.String()), 0o644); err != nil {
+		return err
+	}
+	return os.WriteFile(filepath.Join(dir, "zz_verif_hooked.go"), []byte("//go:build verif\n\npackage certwatcher\n\nfunc init() { VerifHooksInserted = true }\n"), 0o644)
 }
